@@ -58,6 +58,7 @@ func checkC02(c *Ctx) {
 	r.Rule("C02.a2", "the type-variable collector and the substitution visit the same components of every FType constructor (payload fields carrying types, unfolding through the info table)", 5)
 	r.Rule("C02.c2", "every type-variable generator handed to a function is applied or passed on by it (fresh instantiation is not silently replaced by reuse of names)", 10)
 	r.Rule("C02.h", "typing rules of expressions (ExprToType and its helpers) have their reviewed closed forms", 15)
+	r.Rule("C02.c3", "a fresh type variable is drawn per element of a mapped list, never once for the whole list", 1)
 	r.Rule("C02.e", "no unification obligation is dropped: every call result carrying a []UniRel is bound, returned or passed on", 40)
 	f := c.LoadFC("fc")
 	if f == nil {
@@ -147,6 +148,8 @@ func checkC02(c *Ctx) {
 	checkSiblingComponents(c, f)
 	// (c2)
 	checkGeneratorsUsed(c, f)
+	// (c3)
+	checkFreshPerElement(c, f)
 	// (b)
 	tv := newTravAn(c, f)
 	tv.checkTraversal("C02.b", "collectExprRel", []string{"collectBlock", "collectStmtRel", "collectSlice"}, 6)
